@@ -59,6 +59,7 @@ fn cmd_run(args: &[String]) -> i32 {
             }
         }
         let mut chk = chk;
+        let exhaustive = chk.exhaustive;
         if nshards > 1 && !chk.exhaustive {
             chk.cases = ((chk.cases as u64 + nshards - 1) / nshards) as u32;
         } else if nshards > 1 && shard != 0 {
@@ -88,7 +89,7 @@ fn cmd_run(args: &[String]) -> i32 {
         parts.push(json!({
             "check": o.name, "config": cfgname, "evaluations": o.stats.evaluations,
             "distinct_nontrivial": o.stats.nontrivial.len(), "classes": o.stats.classes,
-            "samples": o.stats.samples, "rule": o.rule, "wall_s": o.wall_s, "violation": viol_path,
+            "samples": o.stats.samples, "rule": o.rule, "wall_s": o.wall_s, "violation": viol_path, "exhaustive": exhaustive,
         }));
     }
     // known findings of this property: re-execute each recorded request; report it while it still fails
